@@ -37,7 +37,7 @@ var repairHarness = boundedHarness{prop: "C12", subject: "gts.Repair", pos: "fea
 	}}
 
 var locTextHarness = boundedHarness{prop: "C06", subject: "gts.AsLocation", pos: "location.go", file: "location_bounded_test.go", pkgDir: ".", test: "TestVerifBoundedLocationText",
-	clauses: []string{"printed-location-parses", "print-parse-roundtrip", "space-after-comma", "legacy-3prime-marker"}}
+	clauses: []string{"printed-location-parses", "print-parse-roundtrip", "space-after-comma", "legacy-3prime-marker", "parser-total", "accepted-string-fixed-point"}}
 
 var modTextHarness = boundedHarness{prop: "C08", subject: "gts.AsModifier", pos: "modifier.go", file: "modifier_bounded_test.go", pkgDir: ".", test: "TestVerifBoundedModifierText",
 	clauses: []string{"printed-modifier-parses", "modifier-print-parse-roundtrip", "locator-is-region-resized"}}
